@@ -318,7 +318,7 @@ func (g *gen) genError(typs []types.Type) error {
 		zeros := make([]string, len(outTyps))
 		for i := range outTyps {
 			outs[i] = g.TypeString(outTyps[i])
-			zeros[i] = derive.Zero(outTyps[i])
+			zeros[i] = derive.ZeroOf(outTyps[i], outs[i])
 		}
 		outStr := strings.Join(outs, ", ")
 		p.P("// %s returns the error or calls f and returns it's value and error.", name)
